@@ -267,3 +267,23 @@ Proof.
       apply bind_halt in H. destruct H as [H|(w & s2 & _ & H)]; [exact (IHr Hpr _ _ _ _ H)|].
       apply bool_of_halt in H. destruct H as (t2 & H). discriminate.
 Qed.
+
+(* operand lists of any length *)
+Lemma evals_cons f ge e r st L s :
+  evals f ge (e :: r) st = Ret L s ->
+  exists f1 v sl L', f = S f1 /\ eval f1 ge e (set_cur st eff0) = Ret v sl /\
+    evals f1 ge r (set_cur sl (eff_union (cur st) (cur sl))) = Ret L' s /\ L = (v, cur sl) :: L'.
+Proof.
+  destruct f as [|f1]; [discriminate|]. cbn [evals]. unfold evals_body at 1. intros H.
+  apply rcase_ret in H. destruct H as [([v el] & s1 & H1 & H)|(c & s0 & _ & H)].
+  2:{ destruct (forallb harmless r); discriminate. }
+  apply with_eff_ret in H1. destruct H1 as (sl & Hl & -> & ->).
+  apply rcase_ret in H. destruct H as [(L1 & s2 & H2 & H)|(c & s0 & _ & H)].
+  2:{ cbn [snd] in H. destruct (e_io (cur sl)); discriminate. }
+  inversion H; subst L s; clear H.
+  exists f1, v, sl, L1. repeat split; assumption.
+Qed.
+Lemma evals_nil f ge st L s : evals f ge [] st = Ret L s -> L = [] /\ s = st.
+Proof. destruct f; [discriminate|]. cbn [evals evals_body]. intros H. inversion H. split; reflexivity. Qed.
+Lemma same_store_sym a b : same_store a b -> same_store b a.
+Proof. intros (H1 & H2 & H3 & H4 & H5 & H6). repeat split; congruence. Qed.
